@@ -562,6 +562,59 @@ def r13_candidates_needed(idx, r):
         raise AnalysisError(f"only {n} per-group derivations found in CrossSectionGroupManager")
 
 
+def r14_filter_entries_weights_orderings(idx, r):
+    """(a) a valid-block-type filter lists alternatives: BlockCollection.__init__ turns EACH entry into its own Flags value (a block is
+    eligible when it has any of them); parsing a join of the entries gives one combined value that only a block with ALL the flags has.
+    (b) every _getNucTempHelper weights a member by `self.getWeight(block)` - the same weight (parameter x volume, with the zero-flux guard)
+    the density average uses; anything else makes temperature and density averages of one group disagree about who counts how much.
+    (c) the by-component collections pair the components of the members with the components of the representative position by position:
+    where the consumer walks `sorted(repBlock)`, the member lists are built from `sorted(b)` too."""
+    f = idx.method(M + ".BlockCollection", "__init__")
+    fs = [c for c in iter_calls(f.node) if dotted(c.func) == "Flags.fromString"]
+    if not fs:
+        raise AnchorMissing("BlockCollection.__init__: Flags.fromString")
+    loopvars = {y.id for x in walk_local(f.node) if isinstance(x, (ast.For, ast.comprehension)) and "validBlockTypes" in norm(x.iter) for y in ast.walk(x.target) if isinstance(y, ast.Name)}
+    for c in fs:
+        r.require(bool(c.args) and isinstance(c.args[0], ast.Name) and c.args[0].id in loopvars, "BlockCollection:one-Flags-value-per-filter-entry", f, node=c,
+                  msg=f"`{norm(c)[:70]}` does not parse one entry of validBlockTypes: a filter with several entries becomes one combined flag that a block must carry entirely (AND instead of OR), and the group loses its eligible members")
+    n = 0
+    for c in idx.subclasses(idx.cls(M + ".BlockCollection")):
+        h = c.methods.get("_getNucTempHelper")
+        if h is None:
+            continue
+        for s_ in iter_stores(h.node):
+            if s_.kind == "assign" and isinstance(s_.node, ast.Name) and s_.node.id in ("wt", "weight", "w") and s_.value is not None:
+                n += 1
+                blk = next((norm(x.target) for x in walk_local(h.node) if isinstance(x, ast.For) and any(y is s_.stmt for y in ast.walk(x))), "block")
+                r.require(norm(s_.value) == f"self.getWeight({blk})", f"{c.name}._getNucTempHelper:member-weight-is-getWeight", h, node=s_.stmt,
+                          msg=f"`{norm(s_.stmt)[:80]}`: the temperature average weights a member differently from the density average (no volume factor, no zero-flux guard), so members of unequal volume are mis-weighted")
+    if n < 2:
+        raise AnchorMissing("_getNucTempHelper weights")
+    k = 0
+    for c in idx.subclasses(idx.cls(M + ".BlockCollection")):
+        o = c.methods.get("_orderComponentsInGroup")
+        if o is None:
+            continue
+        users = [m_ for m_ in c.methods.values() if any(call_attr(x) == "_orderComponentsInGroup" for x in iter_calls(m_.node))]
+        consumer_sorted = any(isinstance(x, ast.Call) and dotted(x.func) == "zip" and x.args and norm(x.args[0]) == "sorted(repBlock)" for m_ in users for x in ast.walk(m_.node))
+        if not consumer_sorted:
+            continue
+        lists = [s_ for s_ in iter_stores(o.node) if s_.kind == "assign" and isinstance(s_.node, ast.Name) and s_.node.id == "componentLists" and s_.value is not None]
+        if len(lists) != 1:
+            continue
+        k += 1
+        r.require("sorted(b)" in norm(lists[0].value), f"{c.name}._orderComponentsInGroup:members-ordered-like-the-representative", o, node=lists[0].stmt,
+                  msg=f"`{norm(lists[0].stmt)[:80]}` keeps the members' own component order while the consumer pairs them with sorted(repBlock): for a block that does not list its components inside-out, "
+                      "the fuel of the representative is averaged from the members' ducts")
+    if k < 1:
+        raise AnchorMissing("a by-component collection whose consumer pairs with sorted(repBlock)")
+
+
+def r15_pairing(idx, r):
+    from ..pairing import pairing_rule
+    pairing_rule(idx, r, ["armi.physics.neutronics.crossSectionGroupManager", "armi.physics.neutronics.crossSectionSettings"], 60)
+
+
 def run(idx, chk):
     chk.explanation = (
         "C20: every weighted mean in the block-collection classes is typed with a role generator W for the weights: the result must be of degree "
@@ -596,3 +649,7 @@ def run(idx, chk):
                  necessary="representative temperatures are mass-weighted means; every block ends in the group its (type, environment) selects")
     chk.run_rule("R20.13", "per-group derivations (representative block, nuclide temperatures) run only for groups that have candidate blocks", lambda r: r13_candidates_needed(idx, r), floor=2,
                  necessary="group assignment is a total function: a group without eligible members is handled, not crashed on")
+    chk.run_rule("R20.14", "one Flags value per filter entry; temperature averages weight members by getWeight; member component lists ordered like the representative", lambda r: r14_filter_entries_weights_orderings(idx, r), floor=5,
+                 necessary="the representative is built from the group's eligible members with the right weights, component by component")
+    chk.run_rule("R20.15", "arguments stand at the parameter they are named after; sibling calls forward the same pass-through parameters", lambda r: r15_pairing(idx, r), floor=1,
+                 necessary="type label and environment group are not exchanged")
